@@ -48,6 +48,9 @@ class C10(Prop):
         for a in [(INT_MIN, 0, 0), (INT_MAX, INT_MAX, INT_MAX), (1, 2, 0), (1, 2, INT_MIN)]:
             for i in (0, 1, 2, 3, 7):
                 cases.append(Case('idx %d %d %d %d' % (a + (i,)), 'idx'))
+            cases.append(Case('ctor 3 %d %d %d' % a, 'ctor'))
+        for bad in ('ctor 0', 'ctor 1 5', 'ctor 2 1 2', 'ctor 4 1 2 0 0', 'ctor 5 1 2 3 4 5'):
+            cases.append(Case(bad, 'ctor'))
         comps = [-1, 0, 1, 2, 3]
         cube = list(itertools.product(comps, repeat=3))
         ext = [(INT_MIN, 2, 0), (INT_MAX, 2, 0), (1, INT_MIN, 0), (1, INT_MAX, 0), (1, 2, INT_MIN), (1, 2, INT_MAX),
